@@ -12,8 +12,12 @@ import ast
 import io
 import random
 import tokenize
+import warnings
 
 from harness.proj import Tables, try_parse
+
+# `1if x else y` (a deleted blank after a number) is the same token sequence and still valid, CPython only warns
+warnings.filterwarnings('ignore', category=SyntaxWarning)
 
 T = tokenize
 NOT_REAL = {T.NL, T.COMMENT, T.NEWLINE, T.INDENT, T.DEDENT, T.ENDMARKER}
